@@ -331,7 +331,7 @@ func genBadDep(t *rapid.T) BadDep {
 
 var specC04Malformed = Register(&Spec[BadDep]{
 	Prop: "C04", Name: "malformed",
-	Rule: "one corruption of a valid canonical field, each its own class: closing ] ) > or } missing from a construct (at the end of input, or followed by further valid relations or alternatives whose own closers must not be borrowed); a ${substvar} followed by anything but ',' '|' or the end (a name, a second substvar, a clause); mixed negation in an arch list; a second (version) clause; a second [arch] list; an unknown operator not starting with '=' (U1: ~= != >< <> ~ ^ ...) or starting with '=' (U2: == => =<); two names separated only by blanks - optionally preceded (and where sound followed) by valid relations. Oracle: Parse returns (nil, error) and UnmarshalControl returns an error. Every case is non-trivial; distinct by text.",
+	Rule: "one corruption of a valid canonical field, each its own class: closing ] ) > or } missing from a construct (at the end of input, or followed by further valid relations or alternatives whose own closers must not be borrowed); a ${substvar} followed by anything but ',' '|' or the end (a name, a second substvar, a clause); mixed negation in an arch list; a second (version) clause; a second [arch] list; an unknown operator not starting with '=' (U1: ~= != >< <> ~ ^ ...) or starting with '=' (U2: == => =<); two names separated only by blanks - optionally preceded (and where sound followed) by valid relations. Oracle: Parse returns (nil, error) and UnmarshalControl returns an error and leaves no relations in its receiver. Every case is non-trivial; distinct by text.",
 	Check: func(c BadDep, r *Recorder) error {
 		r.Case(c.Text, true, "malformed:"+c.Class)
 		r.Sample(c)
@@ -345,6 +345,9 @@ var specC04Malformed = Register(&Spec[BadDep]{
 		var d dependency.Dependency
 		if err := d.UnmarshalControl(c.Text); err == nil {
 			return errf("UnmarshalControl(%q) accepted a %s field", c.Text, c.Class)
+		}
+		if len(d.Relations) != 0 {
+			return errf("UnmarshalControl(%q) returned an error AND left %d relation(s) (%q) in the receiver", c.Text, len(d.Relations), d.String())
 		}
 		return nil
 	},
